@@ -1709,6 +1709,12 @@ class PyCdlib:
         if child.parent is None:
             raise pycdlibexception.PyCdlibInternalError('Trying to add child without a parent')
 
+        if child.rock_ridge is not None and child.rock_ridge.dr_entries.ce_record is not None:
+            # A continuation area has to fit into one logical block; find out
+            # before the record becomes part of the directory.
+            if child.rock_ridge.dr_entries.ce_record.len_cont_area > self.logical_block_size:
+                raise pycdlibexception.PyCdlibInvalidInput('The Rock Ridge name or symlink target is too long to fit into a continuation area')
+
         # dir_record.add_child() throws a PyCdlibInvalidInput if it is given a
         # duplicate child.  A duplicate is only allowed for the second and
         # later parts of a very large file; any other duplicate name is an
